@@ -23,7 +23,7 @@ FUNCTIONS = ["jinja2.parser.Parser.parse_condexpr/parse_or/parse_and/parse_not/p
              "jinja2.compiler.CodeGenerator expression visitors (visit_Const/BinExpr/UnaryExpr/Compare/CondExpr/Getattr/Getitem/Slice/Filter/Test/Call/Concat)",
              "jinja2.optimizer.Optimizer", "jinja2.nodes.*.as_const", "Environment.getattr/getitem", "Environment.compile_expression / TemplateExpression",
              "jinja2.runtime.Undefined / Context.resolve_or_missing", "jinja2.tests / jinja2.filters (abs, default, length, first, last, int)"]
-OUTSIDE = ["expression trees with more than 2 binary operators (3 in thorough, sampled)", "float data", "exponents outside 0..3",
+OUTSIDE = ["expression trees with more than 2 binary operators (three-operator trees are a seeded sample: 24 quick / 360 thorough)", "float data", "exponents outside 0..3",
            "string formatting of results (values are compared, not text)", "arbitrary user objects (only the attribute/item probe objects)",
            "undocumented combinations such as an unparenthesised unary minus as a ** operand or a filter applied to an unparenthesised unary expression"]
 ASSUMPTIONS = ["reference evaluator = Python semantics per docs/templates.rst 'Expressions' (and/or return operand values, chained comparisons, ** left associative, ~ string concatenation)"]
@@ -302,6 +302,60 @@ def pair_trees():
     return res
 
 
+TRIPLE_OPS = ["or", "and", "==", "<", "+", "-", "*", "//", "%", "**", "in", "not in"]
+
+
+def triple_trees(seed, n):
+    """Seeded sample of trees with three binary operators and optional unary not / minus (all five bracketings); printed
+    with minimal parentheses, so the real parser's precedence and associativity decide the shape it builds."""
+    rnd = random.Random(1000 + seed)
+    names = ["a", "b", "c"]
+
+    def leaf(k):
+        return V(names[k % 3])
+
+    def mk(op, l, r):
+        if op == "**":
+            r = C(rnd.choice([0, 2, 3]))
+        if op in ("in", "not in"):
+            r = rnd.choice([V("xs"), ("list", [leaf(rnd.randint(0, 2)), C(1)])])
+        return B(op, l, r)
+
+    def un(t):
+        x = rnd.random()
+        if x < 0.12:
+            return ("not", t)
+        if x < 0.24:
+            return ("neg", t)
+        return t
+    out, seen = [], set()
+    tries = 0
+    while len(out) < n and tries < n * 20:
+        tries += 1
+        o1, o2, o3 = (rnd.choice(TRIPLE_OPS) for _ in range(3))
+        shape = rnd.randint(0, 4)
+        a, b, c, d = un(leaf(0)), un(leaf(1)), un(leaf(2)), un(leaf(rnd.randint(0, 2)))
+        if shape == 0:
+            t = mk(o3, mk(o2, mk(o1, a, b), c), d)
+        elif shape == 1:
+            t = mk(o3, mk(o1, a, mk(o2, b, c)), d)
+        elif shape == 2:
+            t = mk(o2, mk(o1, a, b), mk(o3, c, d))
+        elif shape == 3:
+            t = mk(o1, a, mk(o3, mk(o2, b, c), d))
+        else:
+            t = mk(o1, a, mk(o2, b, mk(o3, c, d)))
+        t = un(t)
+        try:
+            sh = show(t)
+        except Exception:
+            continue
+        if sh not in seen:
+            seen.add(sh)
+            out.append(t)
+    return out
+
+
 def extra_trees():
     a, b, c, p, q = V("a"), V("b"), V("c"), V("p"), V("q")
     xs = V("xs")
@@ -372,7 +426,10 @@ def setup(param):
     P = dict(param or {})
     _envs()
     corpus = CTREES if P.get("concat") else TREES
-    CUR = corpus[P.get("tree", 0)]
+    if P.get("triple") is not None:
+        CUR = triple_trees(P.get("tseed", 0), P.get("tn", 0))[P["triple"]]
+    else:
+        CUR = corpus[P.get("tree", 0)]
     EXPR_SRC = show(CUR)
     CE = ENVS["default"].compile_expression(EXPR_SRC, undefined_to_none=False)
     TPL = {k: e.from_string("{{ rec('r', " + EXPR_SRC + ") }}") for k, e in ENVS.items()}
@@ -561,6 +618,11 @@ def conditions(tier, seed):
         out.append(Cond(f"expr[{show(TREES[i])}]", "expr_ok", mode="A", param={"tree": i}, timeout=to,
                         witnesses=[[7, 3, 2, True, False, [3, 9]], [0, 0, 0, False, False, []], [-5, 2, 3, False, True, [-5, 1, 0]]],
                         bounds="a, b, c any ints; p, q any bools; xs any int list of length <= 3; evaluated via compile_expression and rendered templates in default/unoptimized/sandboxed/async environments"))
+    tn = 360 if th else 24
+    for k, t in enumerate(triple_trees(seed, tn)):
+        out.append(Cond(f"expr3[{show(t)}]", "expr_ok", mode="A", param={"triple": k, "tseed": seed, "tn": tn}, timeout=to,
+                        witnesses=[[7, 3, 2, True, False, [3, 9]], [0, 0, 0, False, False, []], [-5, 2, 3, False, True, [-5, 1, 0]]],
+                        bounds="seeded sample of three-operator trees (all bracketings, optional not / unary minus): a, b, c any ints; xs any int list of length <= 3"))
     for i in range(len(CTREES)):
         out.append(Cond(f"concat[{show(CTREES[i])}]", "concat_ok", mode="B", param={"tree": i, "concat": True}, timeout=to,
                         witnesses=[[2, 0, 0], [0, 1, 2]], bounds="a in -3..5, s and t from 3-entry string tables, ys = [10, 20, 30, 40]"))
